@@ -16,6 +16,7 @@ import (
 	"sync"
 
 	"github.com/go-logr/logr"
+	"k8s.io/apimachinery/pkg/util/wait"
 	"pgregory.net/rapid"
 	logf "sigs.k8s.io/controller-runtime/pkg/log"
 
@@ -373,16 +374,61 @@ func c16NIO(p c16Param, seed uint32) *NetworkInterfaceOptions {
 	return o
 }
 
+// c16Caller stands for a long-lived caller of the client: like the node controller
+// (pkg/controller/multi-ip/node: the package-level EniOptions map handed to
+// CreateNetworkInterfaceV2 as the FIRST option of every create) it owns one leading
+// "type" option value per (trunk, erdma) and passes that same object again and again.
+type c16Caller struct {
+	typeOpts map[[2]bool]*CreateNetworkInterfaceOptions
+}
+
+func c16NewCaller() *c16Caller {
+	return &c16Caller{typeOpts: map[[2]bool]*CreateNetworkInterfaceOptions{}}
+}
+
+func (cl *c16Caller) typeOption(trunk, erdma bool) *CreateNetworkInterfaceOptions {
+	k := [2]bool{trunk, erdma}
+	o := cl.typeOpts[k]
+	if o == nil {
+		o = &CreateNetworkInterfaceOptions{NetworkInterfaceOptions: &NetworkInterfaceOptions{Trunk: trunk, ERDMA: erdma}}
+		cl.typeOpts[k] = o
+	}
+	return o
+}
+
+// c16CreateOpts is the option list a caller passes for a create of p.  split=false: one
+// fresh option value carrying everything (daemon, pod controller).  split=true: the
+// caller's shared type option first, then a fresh value with all other parameters (node
+// controller).  Both spell the same parameters.
+func c16CreateOpts(cl *c16Caller, split bool, p c16Param, seed uint32, bo *wait.Backoff) []CreateNetworkInterfaceOption {
+	nio := c16NIO(p, seed)
+	if !split || cl == nil {
+		return []CreateNetworkInterfaceOption{&CreateNetworkInterfaceOptions{NetworkInterfaceOptions: nio, Backoff: bo}}
+	}
+	nio.Trunk, nio.ERDMA = false, false
+	return []CreateNetworkInterfaceOption{
+		cl.typeOption(p.Trunk, p.ERDMA),
+		&CreateNetworkInterfaceOptions{NetworkInterfaceOptions: nio, Backoff: bo},
+	}
+}
+
 // c16Issue runs the real builder of p's kind the way the OpenAPI methods do (options
 // applied onto an empty value, then Finish/EFLO) and returns the token it put into the
 // request together with the rollback.
 func c16Issue(g IdempotentKeyGen, p c16Param, seed uint32) (string, func(), error) {
+	return c16IssueFrom(g, nil, false, p, seed)
+}
+
+// c16IssueFrom is c16Issue for a caller that may split a create into its shared leading
+// option plus a fresh one.
+func c16IssueFrom(g IdempotentKeyGen, cl *c16Caller, split bool, p c16Param, seed uint32) (string, func(), error) {
 	nio := c16NIO(p, seed)
 	switch p.Kind {
 	case c16CreateECS, c16CreateEFLO:
-		in := &CreateNetworkInterfaceOptions{NetworkInterfaceOptions: nio}
 		opt := &CreateNetworkInterfaceOptions{}
-		in.ApplyCreateNetworkInterface(opt)
+		for _, in := range c16CreateOpts(cl, split, p, seed, nil) {
+			in.ApplyCreateNetworkInterface(opt)
+		}
 		if p.Kind == c16CreateECS {
 			req, rb, err := opt.Finish(g)
 			if err != nil {
@@ -437,6 +483,9 @@ type c16Model struct {
 	actKeys  map[string]int      // key -> number of requests in flight with that key
 	orphaned map[string]bool     // keys that lost a returned token to the known class
 	alias    map[string]string   // token -> T1, T2, ... in order of first appearance
+	// key -> 1 if a call that was aborted on the client side before anything was sent may
+	// have parked a token that never reached the wire (it found nothing parked to take)
+	ghost map[string]int
 
 	// facts for labels / non-triviality
 	sawReuse, sawSameParamInflight, sawMultiReturned, sawKnown, sawTags2, sawReuseAfterSuccess bool
@@ -451,6 +500,17 @@ func c16NewModel() *c16Model {
 		actKeys:  map[string]int{},
 		orphaned: map[string]bool{},
 		alias:    map[string]string{},
+		ghost:    map[string]int{},
+	}
+}
+
+// aborted: a call for p returned an error without sending anything (its context was
+// already over).  Whatever token its builder took is expected back in place; if nothing
+// was parked for p it may have parked a token of its own that the wire never saw.
+func (m *c16Model) aborted(p c16Param) {
+	k := p.key()
+	if len(m.returned[k]) == 0 && m.ghost[k] == 0 {
+		m.ghost[k] = 1
 	}
 }
 
@@ -510,7 +570,11 @@ func (m *c16Model) issue(p c16Param, tok string, id int) string {
 	if seen && prev != k {
 		return fmt.Sprintf("request %d (%s) carries token %s that was first issued for different parameters (%s)", id, k, m.name(tok), prev)
 	}
-	if len(ret) > 0 {
+	if !seen && m.ghost[k] > 0 {
+		// the token an aborted-before-send call may have parked: never seen on the wire,
+		// same parameters; as good as a fresh one
+		m.ghost[k]--
+	} else if len(ret) > 0 {
 		if m.known && p.knownClass() && !seen {
 			// open finding: >= 2 tags hash differently per attempt, the retry gets a fresh token
 			m.sawKnown = true
